@@ -720,8 +720,14 @@ def __and__(self, other):
             a_coord, a_payload = _get_next(a)
             b_coord, b_payload = _get_next(b)
 
-            len_a = len(a_coord) if isinstance(a_coord, tuple) else 1
-            len_b = len(b_coord) if isinstance(b_coord, tuple) else 1
+            if a_coord is None or b_coord is None:
+                # An operand without any non-default element: the
+                # intersection is empty and there is no coordinate to read
+                # an arity from (None is not a scalar coordinate)
+                len_a = len_b = 1
+            else:
+                len_a = len(a_coord) if isinstance(a_coord, tuple) else 1
+                len_b = len(b_coord) if isinstance(b_coord, tuple) else 1
 
             if len_a == len_b:
                 def succ_next(a, a_coord, a_payload, b, b_coord, b_payload):
